@@ -27,7 +27,7 @@ def gen_set(rnd):
     for p in pods:
         L = ['[Pod]']
         if rnd.random() < 0.4:
-            L.append('ServiceName=' + rnd.choice(['psvc-' + refs.stem_of(p).replace(' ', '_'), 'pod svc']))
+            L.append('ServiceName=' + rnd.choice(['psvc-' + refs.stem_of(p).replace(' ', '_'), 'pod svc', 'cache.service', 'a.b', 'x.service.service', 'p.pod']))
         if rnd.random() < 0.3:
             L.append('PodName=pn-' + refs.stem_of(p).replace(' ', '_'))
         fs[p] = '\n'.join(L) + '\n'
@@ -43,7 +43,7 @@ def gen_set(rnd):
                                                     # spellings that are not boolean words: anything but a true word opts out
                                                     'False', 'No', 'OFF', 'n', 'x', '2', 'TRUE', 'y']))
         if rnd.random() < 0.3:
-            L.append('ServiceName=' + rnd.choice(['csvc-' + s.replace('@', ''), 'c svc']))
+            L.append('ServiceName=' + rnd.choice(['csvc-' + s.replace('@', ''), 'c svc', 'web.service', 'c.container']))
         if rnd.random() < 0.1:
             L.append('Bogus=1')
         fs[s + '.container'] = '\n'.join(L) + '\n'
